@@ -1,6 +1,6 @@
 (** C15 -- script arguments, functions, source, exit statuses. Statements only. *)
 From Cicada Require Import Base.Chars Base.Peg Gen.LocustGrammar Model.Script Model.ScriptAst Model.Args Model.ShellScript
-  Proofs.ArgsProofs Proofs.SetEProofs Proofs.ScriptProofs Proofs.ShellProofs.
+  Proofs.ArgsProofs Proofs.SetEProofs Proofs.ScriptProofs Proofs.ShellProofs Proofs.ShellCallsProofs.
 From Coq Require Import ZArith String Ascii.
 
 Definition S2 (s : string) : str := map N_of_ascii (list_ascii_of_string s).
@@ -330,6 +330,200 @@ Example C15_redirection_instances :
   ([S2 "in_lib"; S2 "in_g"; S2 "fail7"], 7%Z).
 Proof. vm_compute. reflexivity. Qed.
 
+(** 3f. set -e THROUGH FUNCTION CALLS TO ANY DEPTH, UNBOUNDED, with the executed-command trace explicit
+    (round 9; Proofs/ShellCallsProofs.v). Model: Model/ShellScript.v. LEVEL: the already-parsed
+    representation -- a text (script or function body) enters through [flat_parsed text lines]: the
+    generated grammar parses it to one EXP pair whose children are exactly the CMD pairs of [lines]
+    followed by pairs with empty text (EOI). Function definitions enter through function_table / set_funcs
+    and [tab_ok ft rt]: every body text of the shell's function table [ft] is flat_parsed to the body
+    lines in [rt]. A line ([ok_line]) is non-empty, not break / continue, and ONE pipeline
+    (line_to_cmds l = [l]); by its words it is `set -e`, a call of a function of the table, an external
+    command (status [ext l], appended to the log), or a line without words. `source` is excluded.
+    Reference: [unfold rt fuel lines] = the external commands in execution order with every call replaced
+    by the commands of the body, recursively (None when the call depth exceeds the fuel -- the model's
+    out-of-fuel case -- or a `source` line is met); [upto_fail ext cmds] = cmds cut after the first command
+    whose status is not 0; [fail_status ext cmds] = that status, 0 if there is none (C15_first_failure).
+
+    C15_sete_calls_trace: for EVERY function table, every text of such lines, every state in which
+    exit_on_error is on: run_lines ends normally, the commands executed (the log) are exactly
+    upto_fail of the inlined sequence -- nothing after the first failing command runs, at whatever call
+    depth it sits, and every command runs in order if none fails --, the status is that command's, the
+    flag is still on and the function table unchanged. *)
+Theorem C15_sete_calls_trace : forall ext file_text n ft rt, tab_ok ft rt ->
+  forall fuel text lines cmds w,
+  flat_parsed text lines -> forallb ok_line lines = true -> unfold rt fuel lines = Some cmds ->
+  s_eoe w = true -> s_funcs w = ft ->
+  exists sts,
+    run_lines shs (exec_line ext file_text n fuel) no_words no_setvar s_eoe n text w =
+      Some (Done (mk_shs true ft (s_log w ++ upto_fail ext cmds)) sts false false)
+    /\ script_status sts = fail_status ext cmds.
+Proof. exact sete_calls_lines. Qed.
+
+(** ... and the script as a whole: a file whose text, once function_table has taken the function
+    definitions out (any number, any order, later ones win), is `set -e` followed by such lines.
+    run_script returns the status of the first failing command in execution order (0 if none), has
+    run exactly the commands up to it, and restores the caller's flag. *)
+Theorem C15_sete_calls_script : forall ext file_text n fuel path text defs text_new rt sete lines cmds w,
+  file_text path = Some text -> function_table text = (defs, text_new) ->
+  tab_ok (set_funcs defs (s_funcs w)) rt ->
+  flat_parsed text_new (sete :: lines) ->
+  cmd_words sete = [[115; 101; 116]; [45; 101]]%N ->
+  forallb ok_line (sete :: lines) = true ->
+  unfold rt (S fuel) lines = Some cmds ->
+  run_script ext file_text n (S (S fuel)) w path =
+    (mk_shs (s_eoe w) (set_funcs defs (s_funcs w)) (s_log w ++ upto_fail ext cmds), fail_status ext cmds).
+Proof. exact sete_calls_script. Qed.
+
+(** what upto_fail / fail_status are, in words *)
+Theorem C15_first_failure : forall ext,
+  (forall pre c post, (forall x, In x pre -> ext x = 0%Z) -> ext c <> 0%Z ->
+     upto_fail ext (pre ++ c :: post) = (pre ++ [c])%list /\ fail_status ext (pre ++ c :: post) = ext c)
+  /\ (forall cmds, (forall x, In x cmds -> ext x = 0%Z) -> upto_fail ext cmds = cmds /\ fail_status ext cmds = 0%Z).
+Proof. intro ext. split; [exact (upto_fail_first ext) | exact (upto_fail_none ext)]. Qed.
+
+(** `set -e` at ANY top-level position: the lines before it are external commands run with the flag off
+    (all of them run, whatever they return -- e.g. a failing one), then `set -e`, then lines as above. *)
+Theorem C15_sete_calls_script_at : forall ext file_text n fuel path text defs text_new rt pre sete lines cmds w,
+  file_text path = Some text -> function_table text = (defs, text_new) ->
+  tab_ok (set_funcs defs (s_funcs w)) rt ->
+  flat_parsed text_new (pre ++ sete :: lines) ->
+  s_eoe w = false ->
+  forallb ok_line pre = true -> forallb (is_ext_line rt) pre = true ->
+  cmd_words sete = [[115; 101; 116]; [45; 101]]%N ->
+  forallb ok_line (sete :: lines) = true ->
+  unfold rt (S fuel) lines = Some cmds ->
+  run_script ext file_text n (S (S fuel)) w path =
+    (mk_shs false (set_funcs defs (s_funcs w)) (s_log w ++ pre ++ upto_fail ext cmds), fail_status ext cmds).
+Proof. exact sete_calls_script_at. Qed.
+
+(** the two together, spelled out: if the inlined command sequence is [pre ++ c :: post] with every
+    command of [pre] succeeding and [c] failing -- wherever [c] sits: top level or any call depth --
+    the script has run exactly [pre ++ [c]] (nothing of [post]) and its status is that of [c]; if no
+    command fails, all of them have run, in order, and the status is 0. *)
+Theorem C15_sete_calls_stops : forall ext file_text n fuel path text defs text_new rt sete lines w,
+  file_text path = Some text -> function_table text = (defs, text_new) ->
+  tab_ok (set_funcs defs (s_funcs w)) rt ->
+  flat_parsed text_new (sete :: lines) ->
+  cmd_words sete = [[115; 101; 116]; [45; 101]]%N ->
+  forallb ok_line (sete :: lines) = true ->
+  (forall pre c post, unfold rt (S fuel) lines = Some (pre ++ c :: post)%list ->
+     (forall x, In x pre -> ext x = 0%Z) -> ext c <> 0%Z ->
+     run_script ext file_text n (S (S fuel)) w path =
+       (mk_shs (s_eoe w) (set_funcs defs (s_funcs w)) (s_log w ++ pre ++ [c]), ext c)) /\
+  (forall cmds, unfold rt (S fuel) lines = Some cmds -> (forall x, In x cmds -> ext x = 0%Z) ->
+     run_script ext file_text n (S (S fuel)) w path =
+       (mk_shs (s_eoe w) (set_funcs defs (s_funcs w)) (s_log w ++ cmds), 0%Z)).
+Proof.
+  intros ext file_text n fuel path text defs text_new rt sete lines w H1 H2 H3 H4 H5 H6. split.
+  - intros pre c post Hu Hp Hc.
+    rewrite (sete_calls_script ext file_text n fuel path text defs text_new rt sete lines _ w H1 H2 H3 H4 H5 H6 Hu).
+    destruct (upto_fail_first ext pre c post Hp Hc) as [E1 E2]. rewrite E1, E2. reflexivity.
+  - intros cmds Hu Hz.
+    rewrite (sete_calls_script ext file_text n fuel path text defs text_new rt sete lines _ w H1 H2 H3 H4 H5 H6 Hu).
+    destruct (upto_fail_none ext cmds Hz) as [E1 E2]. rewrite E1, E2. reflexivity.
+Qed.
+
+(** non-vacuity: a 2-deep call chain, the failing command inside the INNER function; every hypothesis
+    of C15_sete_calls_script is met (parses computed with the generated grammar) and its conclusion,
+    obtained from the theorem (not by running the model), is: log one, out1, in1, fail7; status 7. *)
+Definition nv_text : str := S2 "function inner {
+  in1
+  fail7
+  in_notreached
+}
+function outer() {
+  out1
+  inner
+  out_notreached
+}
+set -e
+one
+outer
+notreached
+".
+Definition nv_files (p : str) : option str := if str_eqb p (S2 "n.sh") then Some nv_text else None.
+Definition nv_defs : list (str * str) := Eval vm_compute in fst (function_table nv_text).
+Definition nv_main : str := Eval vm_compute in snd (function_table nv_text).
+Definition nv_rt : list (str * list str) :=
+  [(S2 "outer", [S2 "out1"; S2 "inner"; S2 "out_notreached"]);
+   (S2 "inner", [S2 "in1"; S2 "fail7"; S2 "in_notreached"])].
+Definition nv_lines : list str := [S2 "one"; S2 "outer"; S2 "notreached"].
+
+Ltac prove_flat_parsed :=
+  unfold flat_parsed;
+  match goal with |- exists p r pairs rule txt tail, parse_from ?g ?s ?t = _ /\ _ =>
+    let res := eval vm_compute in (parse_from g s t) in
+    match res with
+    | POk ?p ?r ?k =>
+        exists p, r, k;
+        let m := eval vm_compute in (map (annotate t) k) in
+        match m with
+        | [TNode ?rule ?txt _] =>
+            exists rule, txt, [TNode 0 [] []]; split; [vm_compute; reflexivity | split; vm_compute; reflexivity]
+        end
+    end
+  end.
+
+Example C15_sete_calls_nonvacuous :
+  tab_ok (set_funcs nv_defs []) nv_rt /\
+  flat_parsed nv_main (S2 "set -e" :: nv_lines) /\
+  forallb ok_line (S2 "set -e" :: nv_lines) = true /\
+  unfold nv_rt 3 nv_lines =
+    Some [S2 "one"; S2 "out1"; S2 "in1"; S2 "fail7"; S2 "in_notreached"; S2 "out_notreached"; S2 "notreached"] /\
+  run_script fs_ext nv_files 8 4 (mk_shs false [] []) (S2 "n.sh") =
+    (mk_shs false (set_funcs nv_defs []) [S2 "one"; S2 "out1"; S2 "in1"; S2 "fail7"], 7%Z).
+Proof.
+  assert (Ht : tab_ok (set_funcs nv_defs []) nv_rt).
+  { vm_compute. apply tab_cons; [prove_flat_parsed | vm_compute; reflexivity |].
+    apply tab_cons; [prove_flat_parsed | vm_compute; reflexivity | apply tab_nil]. }
+  assert (Hp : flat_parsed nv_main (S2 "set -e" :: nv_lines)) by prove_flat_parsed.
+  assert (Hu : unfold nv_rt 3 nv_lines =
+    Some [S2 "one"; S2 "out1"; S2 "in1"; S2 "fail7"; S2 "in_notreached"; S2 "out_notreached"; S2 "notreached"])
+    by (vm_compute; reflexivity).
+  split; [exact Ht|]. split; [exact Hp|]. split; [vm_compute; reflexivity|]. split; [exact Hu|].
+  rewrite (C15_sete_calls_script fs_ext nv_files 8 2 (S2 "n.sh") nv_text nv_defs nv_main nv_rt (S2 "set -e") nv_lines _
+             (mk_shs false [] []) eq_refl eq_refl Ht Hp eq_refl eq_refl Hu).
+  vm_compute. reflexivity.
+Qed.
+
+(** the same chain with `set -e` in the middle of the script, after a failing command *)
+Definition nv2_text : str := S2 "function inner {
+  in1
+  fail7
+  in_notreached
+}
+fail7
+zero
+set -e
+function outer() {
+  out1
+  inner
+  out_notreached
+}
+one
+outer
+notreached
+".
+Definition nv2_files (p : str) : option str := if str_eqb p (S2 "n2.sh") then Some nv2_text else None.
+Definition nv2_main : str := Eval vm_compute in snd (function_table nv2_text).
+Example C15_sete_calls_at_nonvacuous :
+  run_script fs_ext nv2_files 8 4 (mk_shs false [] []) (S2 "n2.sh") =
+    (mk_shs false (set_funcs nv_defs []) [S2 "fail7"; S2 "zero"; S2 "one"; S2 "out1"; S2 "in1"; S2 "fail7"], 7%Z).
+Proof.
+  assert (Ht : tab_ok (set_funcs nv_defs []) nv_rt).
+  { vm_compute. apply tab_cons; [prove_flat_parsed | vm_compute; reflexivity |].
+    apply tab_cons; [prove_flat_parsed | vm_compute; reflexivity | apply tab_nil]. }
+  assert (Hp : flat_parsed nv2_main ([S2 "fail7"; S2 "zero"] ++ S2 "set -e" :: nv_lines)) by prove_flat_parsed.
+  assert (Hu : unfold nv_rt 3 nv_lines =
+    Some [S2 "one"; S2 "out1"; S2 "in1"; S2 "fail7"; S2 "in_notreached"; S2 "out_notreached"; S2 "notreached"])
+    by (vm_compute; reflexivity).
+  assert (Hd : function_table nv2_text = (nv_defs, nv2_main)) by (vm_compute; reflexivity).
+  rewrite (C15_sete_calls_script_at fs_ext nv2_files 8 2 (S2 "n2.sh") nv2_text nv_defs nv2_main nv_rt
+             [S2 "fail7"; S2 "zero"] (S2 "set -e") nv_lines _
+             (mk_shs false [] []) eq_refl Hd Ht Hp eq_refl eq_refl eq_refl eq_refl eq_refl Hu).
+  vm_compute. reflexivity.
+Qed.
+
 (** The property, in full, and its refutation on the faithful model (what is left: a token
     holding a newline is not expanded -- first clause, stated for ALL tokens). *)
 Definition C15_full : Prop :=
@@ -370,6 +564,24 @@ Proof.
   split; [reflexivity|]. vm_compute. repeat subst_step.
 Qed.
 
+Check C15_sete_calls_trace : forall ext file_text n ft rt, tab_ok ft rt ->
+  forall fuel text lines cmds w,
+  flat_parsed text lines -> forallb ok_line lines = true -> unfold rt fuel lines = Some cmds ->
+  s_eoe w = true -> s_funcs w = ft ->
+  exists sts,
+    run_lines shs (exec_line ext file_text n fuel) no_words no_setvar s_eoe n text w =
+      Some (Done (mk_shs true ft (s_log w ++ upto_fail ext cmds)) sts false false)
+    /\ script_status sts = fail_status ext cmds.
+Check C15_sete_calls_script : forall ext file_text n fuel path text defs text_new rt sete lines cmds w,
+  file_text path = Some text -> function_table text = (defs, text_new) ->
+  tab_ok (set_funcs defs (s_funcs w)) rt ->
+  flat_parsed text_new (sete :: lines) ->
+  cmd_words sete = [[115; 101; 116]; [45; 101]]%N ->
+  forallb ok_line (sete :: lines) = true ->
+  unfold rt (S fuel) lines = Some cmds ->
+  run_script ext file_text n (S (S fuel)) w path =
+    (mk_shs (s_eoe w) (set_funcs defs (s_funcs w)) (s_log w ++ upto_fail ext cmds), fail_status ext cmds).
+
 Print Assumptions C15_args.
 Print Assumptions C15_args_newline_refuted.
 Print Assumptions C15_func_status.
@@ -385,4 +597,11 @@ Print Assumptions C15_sete_calls.
 Print Assumptions C15_sete_combined.
 Print Assumptions C15_source_with_redirection.
 Print Assumptions C15_sete_rest_of_body.
+Print Assumptions C15_sete_calls_trace.
+Print Assumptions C15_sete_calls_script.
+Print Assumptions C15_first_failure.
+Print Assumptions C15_sete_calls_script_at.
+Print Assumptions C15_sete_calls_at_nonvacuous.
+Print Assumptions C15_sete_calls_stops.
+Print Assumptions C15_sete_calls_nonvacuous.
 
